@@ -138,6 +138,29 @@ def adversarial_designs():
             return m
         yield (f"adv/self-clash/bundle-members/{order}", b6)
 
+        def b6p(order=order):
+            # the same bundle on a child's port: the clash is inside the child's port list as well
+            L = leaf()
+            Sub = h.Bundle(name="SubBp")
+            Sub.add(h.Signal(name="b"))
+            Z = h.Bundle(name="ZBp")
+            parts = [lambda: Z.add(h.Signal(name="a_b")), lambda: Z.add(Sub(), name="a")]
+            for f in (parts if order == 0 else parts[::-1]):
+                f()
+            c = h.Module(name="AdvSelfChild")
+            c.v = h.Signal()
+            c.z = Z(port=True)
+            c.k1 = L()(a=c.z.a_b, b=c.v)
+            c.k2 = L()(a=c.z.a.b, b=c.v)
+            m = h.Module(name="AdvSelfP")
+            m.v = h.Signal()
+            m.z = Z()
+            m.l1 = L()(a=m.z.a_b, b=m.v)
+            m.l2 = L()(a=m.z.a.b, b=m.v)
+            m.c = c(z=m.z)
+            return m
+        yield (f"adv/self-clash/bundle-port-members/{order}", b6p)
+
         def b6w(order=order):
             # the same with members of different widths: a silent replacement also breaks the width of a connection
             L2 = h.ExternalModule(name="LF2", port_list=[h.Inout(name="a", width=2), h.Inout(name="b")], desc="", domain="adv")
@@ -177,7 +200,7 @@ def adversarial_designs():
 
 def check_adv(case):
     import hdl21 as h
-    from rtc.meaning import meaning, package_meaning, compare
+    from rtc.meaning import meaning, package_meaning, compare, InvalidPackage
     desc, build = case
     top = build()
     want = meaning(top)
@@ -192,7 +215,11 @@ def check_adv(case):
     for n, o in designer.items():
         if top.namespace.get(n) is not o:
             return ("adv.shadowed", f"{desc}: designer object `{n}` was replaced or shadowed", {"design": desc})
-    diff = compare(want, package_meaning(pkg, top.name))
+    try:
+        got = package_meaning(pkg, top.name)
+    except InvalidPackage as e:
+        return ("adv.captured", f"{desc}: the exported package is not a circuit: {str(e)[:220]}", {"design": desc})
+    diff = compare(want, got)
     if diff:
         return ("adv.captured", f"{desc}: {diff[0][:260]}", {"design": desc})
     return None
@@ -224,7 +251,7 @@ def run(ctx):
                          "before or after the construct; invented names that clash with each other (bundle members a_b vs a.b, "
                          "implicit signals i0.a_b vs i0_a.b); oracle: reference meaning + identity of designer objects; "
                          "all distinct and non-trivial",
-                    bound="5 naming rules x 3 suffixes x 2 orders + 6 self-clash designs", key_of=lambda c: c[0])
+                    bound="5 naming rules x 3 suffixes x 2 orders + 8 self-clash designs", key_of=lambda c: c[0])
     return INFO
 
 
